@@ -613,6 +613,18 @@ func (st *State) oblige(kind, label string, props []string, goal string, pos tok
 		return nil
 	}
 	ob := &Obligation{Name: base, Fn: fn, Kind: kind, Props: props, Goal: goal, Path: st.pathString(), Expect: "unsat", Replay: e.curReplay}
+	if c := e.contracts[e.curFn]; c != nil {
+		for _, rf := range c.ReplayFor {
+			if strings.Contains(base, rf[0]) {
+				ob.Replay = rf[1]
+				for _, kv := range strings.Fields(rf[2]) {
+					if i := strings.Index(kv, ":="); i > 0 {
+						e.replayConsts[e.curFn+"\x00"+kv[:i]] = kv[i+2:]
+					}
+				}
+			}
+		}
+	}
 	if pos.IsValid() {
 		p := e.P.Prog.Fset.Position(pos)
 		ob.Pos = fmt.Sprintf("%s:%d", shortFile(p.Filename), p.Line)
